@@ -34,6 +34,7 @@ type ExecKnobs struct {
 	Pace     int    `json:"pace,omitempty"`
 	Preempt  int    `json:"preempt,omitempty"`
 	Procs    int    `json:"procs,omitempty"` // what the engine sees as GOMAXPROCS
+	Direct   bool   `json:"direct,omitempty"`   // the simulated driver forwards lookups with the engine's own channel (the real driver's channel / lock behaviour is not shielded); only call-level faults
 	CtxAware bool   `json:"ctxaware,omitempty"` // the simulated driver returns ctx.Err() once its context is done (a remote driver); off: it ignores the context like storage/memory
 }
 
@@ -62,7 +63,7 @@ func (h *faultHarness) Decode(b []byte) (any, error) {
 
 func genKnobs(r *Rand) ExecKnobs {
 	return ExecKnobs{Memo: r.Chance(0.4), ChanSize: []int{0, 0, 1, 2, 7}[r.Intn(5)], BulkSize: []int{1, 2, 3, 10}[r.Intn(4)],
-		Sched: r.U64(), Permute: r.Bool(), Pace: r.Intn(3), Preempt: r.Intn(3), Procs: []int{1, 2, 4, 16}[r.Intn(4)], CtxAware: r.Chance(0.4)}
+		Sched: r.U64(), Permute: r.Bool(), Pace: r.Intn(3), Preempt: r.Intn(3), Procs: []int{1, 2, 4, 16}[r.Intn(4)], CtxAware: r.Chance(0.4), Direct: r.Chance(0.25)}
 }
 
 func (h *faultHarness) Gen(r *Rand, tier string, clean bool) any {
@@ -161,7 +162,7 @@ func execStatement(t *testing.T, gs []GraphData, text string, k ExecKnobs, fault
 		if inner == nil {
 			inner = buildStore(ctx, gs)
 		}
-		ss = newSimStore(inner, simStoreCfg{Permute: k.Permute, Pace: k.Pace, Faults: faults, CtxAware: k.CtxAware, Cancel: cancel})
+		ss = newSimStore(inner, simStoreCfg{Permute: k.Permute, Pace: k.Pace, Faults: faults, CtxAware: k.CtxAware, Cancel: cancel, Transparent: k.Direct})
 		var st storage.Store = ss
 		if k.Memo {
 			st = memoization.New(ss)
@@ -248,7 +249,9 @@ func (h *faultHarness) Run(t *testing.T, ci any) *Outcome {
 			}
 			sort.Ints(jl)
 			for _, j := range jl {
-				plans = append(plans, []FaultSpec{{Call: rec.Idx, Mode: "after", J: j}})
+				if !c.Knobs.Direct {
+					plans = append(plans, []FaultSpec{{Call: rec.Idx, Mode: "after", J: j}})
+				}
 			}
 		}
 		// the caller's context is cancelled while call k is in flight (at its start, or after j elements of a stream)
